@@ -24,6 +24,10 @@ func Harness_C06_DeliveryStep() {
 	next := k.nextL1(ctx)
 	l2 := k.nextL2(ctx)
 	verifAssume(next < 1<<62 && l2 < 1<<62) // bound: the 64-bit counters do not wrap
+	// the query names the sequence the handler expects next, in every state (also before the first deposit, when
+	// nothing is stored yet: one plus zero processed)
+	q0, q0err := NewQuerier(k).NextL1Sequence(ctx, &types.QueryNextL1SequenceRequest{})
+	verifAssert("the next-sequence query names the sequence the handler expects", q0err == nil && q0.NextL1Sequence == next)
 	authorised := k.isExecutor(ctx, req.Sender)
 	to, toOK := k.addr(req.To)
 	var balTo = k.sup(ctx, req.Amount.Denom)
